@@ -39,6 +39,8 @@ SCAN_GLOBS = [
     "opendsm/eemeter/common/sufficiency_criteria.py",
     "opendsm/eemeter/models/hourly_caltrack/model.py",
 ]
+ORDER_EXTRA_GLOBS = ["opendsm/eemeter/models/hourly_caltrack/*.py", "opendsm/eemeter/common/*.py", "opendsm/common/*.py",
+                     "opendsm/common/stats/*.py"]
 SKIP = {"opendsm/eemeter/models/daily/plot.py", "opendsm/eemeter/models/billing/plot.py"}
 # definitions outside every fit / predict path, not audited for mutable defaults (a weather download helper)
 SKIP_DEFS = {"NREL_Weather_API"}
@@ -561,12 +563,19 @@ def extract():
     if not x0_sites:
         raise TranslatorError("no construction of an optimiser found (Optimizer / InitialGuessOptimizer)")
 
-    gwrites = []
+    gwrites, osites = [], []
     for mod in mods:
         gwrites += global_writes_of(mod, ctx_of)
+        osites += order_sites_of(mod)
+    # the order-sensitivity table also covers the rest of the CalTRACK hourly path and the shared helpers
+    for g in ORDER_EXTRA_GLOBS:
+        for pth in sorted(glob.glob(os.path.join(root, g))):
+            rel = os.path.relpath(pth, root)
+            if rel not in files and rel not in SKIP:
+                osites += order_sites_of(Mod(rel))
     nested = nested_defaults()
     algos, hourly = defaults_by_introspection()
-    return {"gwrites": gwrites, "nested": nested, "files": files, "sites": sites, "uses": uses, "assigns": assigns, "x0_sites": x0_sites,
+    return {"osites": osites, "gwrites": gwrites, "nested": nested, "files": files, "sites": sites, "uses": uses, "assigns": assigns, "x0_sites": x0_sites,
             "bindings": [{"func": f, "param": p, "args": a} for (f, p), a in sorted(bindings.items())],
             "mdefaults": mdefaults, "algorithms": algos, "hourly": hourly}
 
@@ -696,6 +705,77 @@ def global_writes_of(mod, ctx_of):
                 elif root in top and scope(n) != "<import>" and (depth > 0 or is_container(top[root])):
                     out.append({"file": mod.rel, "scope": scope(n), "kind": "GModuleObject",
                                 "target": ast.unparse(n.func)[:60] + "()", "line": n.lineno})
+    return out
+
+
+ORDERED_CONSUMERS = {"list", "tuple", "enumerate", "iter", "next", "zip", "map", "filter", "reversed", "np.array", "np.asarray",
+                     "numpy.array", "numpy.asarray", "pd.Index", "pd.Series", "pd.DataFrame", "pandas.Index", "pandas.Series",
+                     "dict.fromkeys", "OrderedDict", "collections.OrderedDict", "np.fromiter", "np.concatenate", "np.hstack"}
+ORDER_FREE = {"sorted", "set", "frozenset", "any", "all", "len", "min", "max", "bool", "isinstance"}
+SET_METHODS = {"difference", "union", "intersection", "symmetric_difference", "copy"}
+
+
+def order_sites_of(mod):
+    """where the iteration order of a set (it depends on the per-process hash salt for str/bytes/datetime elements) flows
+    into something ordered: for-loops and list/dict comprehensions over a set, list(s), tuple(s), x.extend(s), ','.join(s),
+    np.array(list(s)), s.pop(), unpacking, `lst += s`.  sorted(s), len(s), membership tests, set algebra are order-free."""
+    out = []
+
+    def fn_assigns(n):
+        fn = mod.enclosing(n, (ast.FunctionDef, ast.AsyncFunctionDef))
+        return FnCtx(mod, fn) if fn is not None else None
+
+    def is_set(n, e, depth=0):
+        if depth > 6:
+            return False
+        if isinstance(e, (ast.Set, ast.SetComp)):
+            return True
+        if isinstance(e, ast.NamedExpr):
+            return is_set(n, e.value, depth + 1)
+        if isinstance(e, ast.Call):
+            d = dotted(e.func)
+            if d in ("set", "frozenset"):
+                return True
+            if isinstance(e.func, ast.Attribute) and e.func.attr in SET_METHODS:
+                return is_set(n, e.func.value, depth + 1)
+            return False
+        if isinstance(e, ast.BinOp) and isinstance(e.op, (ast.Sub, ast.BitOr, ast.BitAnd, ast.BitXor)):
+            return is_set(n, e.left, depth + 1) or is_set(n, e.right, depth + 1)
+        if isinstance(e, ast.Name):
+            c = fn_assigns(n)
+            if c is None or e.id in c.params:
+                return False
+            vals = c.assigns.get(e.id, [])
+            return bool(vals) and all(v is not None and is_set(n, v, depth + 1) for v in vals)
+        return False
+
+    def rec(n, kind, e):
+        out.append({"file": mod.rel, "func": mod.qual(n), "kind": kind, "text": ast.unparse(e)[:70], "line": n.lineno})
+
+    def order_free_parent(n):
+        p = mod.parent.get(n)
+        return isinstance(p, ast.Call) and dotted(p.func) in ORDER_FREE and n in p.args
+
+    for n in ast.walk(mod.tree):
+        if isinstance(n, ast.For) and is_set(n, n.iter):
+            rec(n, "for", n.iter)
+        elif isinstance(n, (ast.ListComp, ast.DictComp, ast.GeneratorExp)):
+            if any(is_set(n, g.iter) for g in n.generators) and not order_free_parent(n):
+                rec(n, "comprehension", n)
+        elif isinstance(n, ast.Call):
+            d = dotted(n.func)
+            if d in ORDERED_CONSUMERS and any(is_set(n, a) for a in n.args) and not order_free_parent(n):
+                rec(n, "call", n)
+            elif isinstance(n.func, ast.Attribute) and n.func.attr in ("extend", "join") and any(is_set(n, a) for a in n.args):
+                rec(n, n.func.attr, n)
+            elif isinstance(n.func, ast.Attribute) and n.func.attr == "pop" and not n.args and is_set(n, n.func.value):
+                rec(n, "pop", n)
+        elif isinstance(n, ast.AugAssign) and isinstance(n.op, ast.Add) and is_set(n, n.value):
+            rec(n, "augassign", n)
+        elif isinstance(n, ast.Starred) and is_set(n, n.value):
+            rec(n, "star", n)
+        elif isinstance(n, ast.Assign) and len(n.targets) == 1 and isinstance(n.targets[0], (ast.Tuple, ast.List)) and is_set(n, n.value):
+            rec(n, "unpack", n)
     return out
 
 
@@ -897,6 +977,10 @@ def render(ex):
         "  {| m_file := %s; m_func := %s; m_param := %s; m_pydantic := %s; m_usage := %s; m_calls := %d; m_explicit := %d |}" % (
             q(m["file"]), q(m["func"]), q(m["param"]), "true" if m["pydantic"] else "false", m["usage"], m["calls"], m["explicit"])
         for m in ex["mdefaults"]))
+    L.append("].\n")
+    L.append("Definition order_sites : list osite := [")
+    L.append(";\n".join("  {| o_file := %s; o_func := %s; o_kind := %s; o_text := %s |}" % (
+        q(o["file"]), q(o["func"]), q(o["kind"]), q(o["text"])) for o in ex["osites"]))
     L.append("].\n")
     L.append("Definition global_writes : list gwrite := [")
     L.append(";\n".join("  {| w_file := %s; w_scope := %s; w_kind := %s; w_target := %s |}" % (
